@@ -468,7 +468,9 @@ class InstanceValue(Object):
         attrs = self.cls._attrs.copy()
         for b in reversed(self.cls.bases):
             o = b.call(self.ctx)
-            if o and not isinstance(o, InstanceValue):
+            # (a base that is no class at all, e.g. a function, may give a
+            # value that has no attributes to offer)
+            if o and not isinstance(o, InstanceValue) and hasattr(o, '_attrs'):
                 for k, v in iteritems(o._attrs):
                     attrs.setdefault(k, v)
         attrs.update(self._inst_attrs)
